@@ -223,12 +223,15 @@ Record cfg := mkCfg {
   (* CustomMode.build: column_range=None means the whole table (false: DataFrame.loc[:, None] -> KeyError) *)
   cf_custom_range_optional : bool;
   (* convert_custom_data (dask path) reads the selected columns by position (false: by the labels 0,1,..) *)
-  cf_dask_custom_positional : bool
+  cf_dask_custom_positional : bool;
+  (* convert_custom_data hands over the bare number only for the placeholder "_" itself (false: for every
+     parameter with exactly one placeholder, also the one-element list ["_"]) *)
+  cf_dask_custom_scalar_is_placeholder : bool
 }.
 
 (* the tree the framework was built on (round 1) and the tree with the round-2 repairs *)
-Definition cfg_round1 : cfg := mkCfg false false false false false.
-Definition cfg_repaired : cfg := mkCfg true true true true true.
+Definition cfg_round1 : cfg := mkCfg false false false false false false.
+Definition cfg_repaired : cfg := mkCfg true true true true true true.
 
 (* ------------------------------------------------------------------------------------ dimension names *)
 
@@ -525,14 +528,20 @@ Fixpoint zipn {A} (ls : list (list A)) : list (list A) :=
 Definition dask_sequential_cells (steps : list (string * list pval)) : list assignment :=
   map (fun vs => combine (map fst steps) vs) (zipn (map snd steps)).
 
-(* convert_custom_data: `len(params) == 1` -> the single column as a number, else the tuple of the
-   next len(params) columns; columns are addressed by LABEL 0,1,.. (custom_data[idx]) *)
-Fixpoint dask_custom_row (steps : list (string * list pval)) (row : list Z) (i : nat) : assignment :=
-  match steps with
+(* convert_custom_data: the single column as a number -- for a parameter with one placeholder
+   (`len(params) == 1`, round 1) or for the placeholder "_" itself (`params == "_"`, repaired) --, else the
+   tuple of the next len(params) columns; the steps are the enabled parameters in declaration order *)
+Definition dask_scalar (cf : cfg) (p : param) : bool :=
+  if cf_dask_custom_scalar_is_placeholder cf
+  then match p_values p with Under => true | _ => false end
+  else Nat.eqb (plen p) 1.
+
+Fixpoint dask_custom_row (cf : cfg) (en : list param) (row : list Z) (i : nat) : assignment :=
+  match en with
   | [] => []
-  | (k, vs) :: rest =>
-      (k, if Nat.eqb (length vs) 1 then Sc (nth i row 0%Z) else Vec (firstn (length vs) (skipn i row)))
-      :: dask_custom_row rest row (i + length vs)
+  | p :: rest =>
+      (p_key p, if dask_scalar cf p then Sc (nth i row 0%Z) else Vec (firstn (plen p) (skipn i row)))
+      :: dask_custom_row cf rest row (i + plen p)
   end.
 
 (* id coordinate + one coordinate per parameter (sequential and custom mode) *)
@@ -585,10 +594,10 @@ Definition observe_dask (cf : cfg) (m : omode) (ps : list param) (slots : assign
           | Some names =>
               if str_nodup (map (name_of names) keys)
                  && (cf_dask_custom_positional cf || Nat.eqb lo 0) (* custom_data[0]: KeyError if lo > 0 *)
-                 && Nat.leb (sum_nat (map (fun s => length (snd s)) steps)) ncols   (* the asserts *)
+                 && Nat.leb (sum_nat (map plen en)) ncols            (* the asserts *)
               then dask_outcome slots (map (fun nr => (dask_id_label names (fst nr)
-                                                          (dask_custom_row steps (snd nr) 0),
-                                                        dask_custom_row steps (snd nr) 0))
+                                                          (dask_custom_row cf en (snd nr) 0),
+                                                        dask_custom_row cf en (snd nr) 0))
                                            (enumerate_from 0 rows))
               else None
           end
